@@ -32,6 +32,7 @@ fn dispatch(cmd: &str, args: &[&str]) -> String {
         "loadsrc" => loadseq::run_source(args),
         "nsig" => loadseq::run_nsig(args),
         "wobs" => loadseq::run_wobs(args),
+        "wfull" => loadseq::run_wfull(args),
         "ghws" => ghws::run(args),
         "ghwreg" => ghws::run_reg(args),
         "serde" => serde_rt::run_path(args),
